@@ -194,12 +194,19 @@ def run_shard(mod, tier, seed, shard, nshards):
                 if v2 is not None:
                     found = (case, v2)
                     break
+            if found is None and judge.failing:
+                # observed on the real code but not reproducible on replay (a schedule the harness does not
+                # own, e.g. address-dependent set order): still a violation that was seen; say so in the record
+                case, v = judge.failing[-1]
+                found = (case, v)
+                result['unreproducible'] = True
             if found is None:
                 result['harness_error'] = ''.join(traceback.format_exception(type(exc), exc,
                                                                              exc.__traceback__))[-6000:]
             else:
                 result['violation'] = violation_record(*found)
-                result['violation']['origin'] = 'generated'
+                result['violation']['origin'] = ('generated (seen once, not reproduced on replay)'
+                                                 if result.get('unreproducible') else 'generated')
 
     # 3. enumerated finite sub-spaces
     if result['violation'] is None and result['harness_error'] is None and hasattr(mod, 'exhaustive'):
